@@ -702,9 +702,10 @@ def parse_model(model: str, *, check_syntax: bool = True) -> List[Symbol]:
                 with warnings.catch_warnings(record=True) as w:
                     warnings.simplefilter('always')
 
-                    # Check for exceptions when trying to run the current equation
+                    # Check for exceptions when trying to compile (not run) the
+                    # current equation
                     try:
-                        exec(e)
+                        compile(e, '<string>', 'exec')
                     except NameError:  # Ignore name errors (undefined variables)
                         pass
                     except SyntaxError:
